@@ -102,8 +102,45 @@ IMPL_OPS = {
     "ONeg": lambda a, ia: -a[0], "OPos": lambda a, ia: +a[0],
     "OKron": lambda a, ia: a[0] ** a[1],
 }
+def _tt():
+    import torchtt
+    return torchtt
+def _matmul_dense(a, ia):
+    torch, _ = _imp()
+    d, br = ia[0]
+    if br == 0: return torch.tensordot(a[0], a[1], dims=d)
+    if br == 1: return torch.tensordot(a[0], a[1], dims=d)
+    if br == 2: return torch.tensordot(a[0], a[1], dims=d)
+    X, A = a[1], a[0]
+    nb = X.dim() - d
+    return torch.tensordot(X, A, dims=(list(range(nb, nb + d)), list(range(d, 2 * d))))
+def _tr_dense(a, ia):
+    d = ia[0][0]
+    return a[0].permute(list(range(d, 2 * d)) + list(range(d)))
+def _eye_dense(a, ia, dtype):
+    torch, _ = _imp()
+    ns = ia[0]
+    n = int(np.prod(ns))
+    return torch.eye(n, dtype=dtype).reshape(list(ns) + list(ns))
+IMPL_OPS.update({
+    "OMatmul": lambda a, ia: a[0] @ a[1],
+    "OTr": lambda a, ia: a[0].t(),
+})
+# factories need the dtype: handled in Op.impl / Op.dense
+FACTORY_IMPL = {
+    "OEye": lambda ia, dtype: _tt().eye(ia[0], dtype=dtype),
+    "OOnes": lambda ia, dtype: _tt().ones(ia[0], dtype=dtype),
+    "OZeros": lambda ia, dtype: _tt().zeros(ia[0], dtype=dtype),
+}
+FACTORY_DENSE = {
+    "OEye": lambda ia, dtype: _eye_dense(None, ia, dtype),
+    "OOnes": lambda ia, dtype: _imp()[0].ones(ia[0], dtype=dtype),
+    "OZeros": lambda ia, dtype: _imp()[0].zeros(ia[0], dtype=dtype),
+}
 DENSE_OPS = dict(IMPL_OPS)
 DENSE_OPS["OKron"] = lambda a, ia: _kron_dense(a[0], a[1])
+DENSE_OPS["OMatmul"] = _matmul_dense
+DENSE_OPS["OTr"] = _tr_dense
 
 class Op:
     def __init__(self, name, args, ia=()):
@@ -111,8 +148,10 @@ class Op:
     def coq(self, car):
         return "EOp %s [%s] %s" % (self.name, ";".join("(" + a.coq(car) + ")" for a in self.args), nnlist(self.ia))
     def impl(self, env, dtype):
+        if self.name in FACTORY_IMPL: return FACTORY_IMPL[self.name](self.ia, dtype)
         return IMPL_OPS[self.name]([a.impl(env, dtype) for a in self.args], self.ia)
     def dense(self, env, dtype):
+        if self.name in FACTORY_DENSE: return FACTORY_DENSE[self.name](self.ia, dtype)
         return DENSE_OPS[self.name]([a.dense(env, dtype) for a in self.args], self.ia)
     def desc(self): return {"op": self.name, "args": [a.desc() for a in self.args], "ia": self.ia}
     def to_json(self): return {"op": self.name, "args": [a.to_json() for a in self.args], "ia": self.ia}
